@@ -304,6 +304,7 @@ def instantiate(unit, drops, extracted):
             inject = None
             intbytes = False
             loopinv = None
+            noiso = False
             sliceeq = False
             dropbody = []
             for p in parts[2:]:
@@ -327,6 +328,8 @@ def instantiate(unit, drops, extracted):
                     intbytes = True
                 elif p.startswith('loop-invariant='):
                     loopinv = p[len('loop-invariant='):]
+                elif p == 'no-loop-isolation':
+                    noiso = True
                 elif p == 'slice-eq':
                     sliceeq = True
                 elif p.startswith('inject='):
@@ -351,12 +354,31 @@ def instantiate(unit, drops, extracted):
             if loopinv:
                 pre, inv = loopinvs[loopinv]
                 lm = re.search(r'(?m)^(\s*)for _ in ([^{]+?) \{', item)
-                if not lm:
-                    raise extract.AnchorLost('loop `for _ in ..` not found for its invariant (%s)' % loopinv)
-                ind = lm.group(1)
-                item = (item[:lm.start()] + pre.rstrip() + '\n' + ind + 'for i__ in ' + lm.group(2) + '\n' + inv.rstrip() + '\n' + ind + '{'
-                        + item[lm.end():])
-                kk = 'loop `for _ in a..b` given the loop variable name `i__`, ghost declarations before it and an `invariant` clause (annotation only)'
+                wm = re.search(r'(?m)^(\s*)while let (.+?) =\s*(.+?) \{\n', item, flags=re.S)
+                if lm:
+                    ind = lm.group(1)
+                    item = (item[:lm.start()] + pre.rstrip() + '\n' + ind + 'for i__ in ' + lm.group(2) + '\n' + inv.rstrip() + '\n' + ind + '{'
+                            + item[lm.end():])
+                    kk = 'loop `for _ in a..b` given the loop variable name `i__`, ghost declarations before it and an `invariant` clause (annotation only)'
+                    drops[kk] = drops.get(kk, 0) + 1
+                elif wm:
+                    # `while let P = E { B }`  ==>  `loop <clauses> { match E { P => { B } _ => { break; } } }` — the definition of
+                    # while-let; Verus keeps the facts established by evaluating E only on the explicit `break` path
+                    ind = wm.group(1)
+                    ob = wm.end() - 2          # index of the '{' opening the body
+                    cb = _match_fwd(item, ob)
+                    body = item[ob + 1:cb]
+                    item = (item[:wm.start()] + pre.rstrip() + '\n' + ind + 'loop\n' + inv.rstrip() + '\n' + ind + '{ match ' + wm.group(3).strip()
+                            + ' { ' + wm.group(2).strip() + ' => {' + body + '} _ => { break; } } }' + item[cb + 1:])
+                    kk = ('`while let P = E { B }` unfolded into `loop { match E { P => { B } _ => { break; } } }` with ghost declarations and '
+                          '`invariant` / `ensures` / `decreases` clauses (the definition of while-let; annotation otherwise)')
+                    drops[kk] = drops.get(kk, 0) + 1
+                else:
+                    raise extract.AnchorLost('loop not found for its invariant (%s)' % loopinv)
+            if noiso:
+                fm = re.search(r'(?m)^(\s*)((?:pub(?:\([a-z]+\))? )?fn )', item)
+                item = item[:fm.start()] + fm.group(1) + '#[verifier::loop_isolation(false)]\n' + fm.group(1) + '#[verifier::allow_complex_invariants]\n' + item[fm.start():]
+                kk = 'attribute #[verifier::loop_isolation(false)] added to the function (facts established before the loop stay visible in its body)'
                 drops[kk] = drops.get(kk, 0) + 1
             if sliceeq:
                 item, k = re.subn(r'\b(\w+) == (\[(?:0x[0-9A-Fa-f]+|\d+)(?:\s*,\s*(?:0x[0-9A-Fa-f]+|\d+))*\])', r'slice_eq__(\1, &\2)', item)
